@@ -97,12 +97,6 @@ def classify(e, view):
         return "notrun", None
     if view["expect"]["err"]:
         return "referr", None
-    if view["mode"] in ("subset", "topk") and _has_all_setop(view["plan"]):
-        # The engine evaluates INTERSECT ALL / EXCEPT ALL as semi / anti joins (every left duplicate is kept / removed), the
-        # reference as bag operations (a C01 matter, the same for every plan variant and configuration).  Under a LIMIT
-        # the rows an execution happens to return are then compared with a universe the engine does not share:
-        # no verdict for such cases.
-        return "referr", None
     if "err" in e:
         msg = e["err"]
         if any(m in msg for m in UNEXEC):
@@ -110,7 +104,7 @@ def classify(e, view):
         if any(m in msg for m in EVALERR):
             return "evalerr", msg
         return "error", msg
-    m = sqlcases.compare(view, e["rows"], None)
+    m = semcases.compare(view, e["rows"], None)
     return ("ok", None) if m is None else ("diff", m)
 
 
@@ -150,16 +144,64 @@ def literal_aggregate(plan_text):
     return False
 
 
+
+_RE_SORT_LIMIT_SORT = re.compile(r"Sort: [^\n]*\n\s*Limit: skip=[1-9]\d*, fetch=\d+\n\s*Sort:")
+_RE_LIMIT_PROJ_SORT = re.compile(r"Limit: skip=[1-9]\d*, fetch=\d+\n\s*Projection: [^\n]*\n\s*Sort: (?![^\n]*fetch=)")
+
+
+def offset_limit_key(plan_text):
+    """Physical limit pushdown defects: an OFFSET/LIMIT whose input is a sort, with another sort above it or a projection between."""
+    if _RE_SORT_LIMIT_SORT.search(plan_text or ""):
+        return "offset-limit-between-two-sorts-loses-rows"
+    if _RE_LIMIT_PROJ_SORT.search(plan_text or ""):
+        return "offset-limit-over-projection-over-unlimited-sort"
+    return None
+
+
+def extracted_below_outer_join(plan_text):
+    """An extraction alias (`<expr> AS __datafusion_extracted_N`, expr not a bare column) is DEFINED inside the null-supplying input
+    of a LEFT / RIGHT / FULL join (plan text of display_indent: children are indented by two more blanks, left input first)."""
+    lines = plan_text.splitlines()
+    ind = [len(l) - len(l.lstrip()) for l in lines]
+    for i, l in enumerate(lines):
+        m = re.match(r"\s*(Left|Right|Full) Join", l)
+        if not m:
+            continue
+        kids = [j for j in range(i + 1, len(lines)) if ind[j] == ind[i] + 2 and all(ind[k] > ind[i] for k in range(i + 1, j + 1))]
+        if len(kids) < 2:
+            continue
+        end = next((j for j in range(kids[1] + 1, len(lines)) if ind[j] <= ind[i]), len(lines))
+        spans = {"Left": [(kids[1], end)], "Right": [(kids[0], kids[1])], "Full": [(kids[0], kids[1]), (kids[1], end)]}[m.group(1)]
+        for a, b in spans:
+            for j in range(a, b):
+                for item in _split_top(lines[j].split(":", 1)[1] if ":" in lines[j] else ""):
+                    mm = re.match(r"^(.*) AS __datafusion_extracted_\d+$", item.strip())
+                    if mm and not re.match(r"^[\w.]+$", mm.group(1).strip()):
+                        return True
+    return False
+
+
 def finding_key(plan_text, err=None):
     """Narrow keys of genuine engine defects (known_findings.json)."""
     if re.search(r"LeftAnti Join:\s+Filter:.*null_aware", plan_text or ""):
         return "null-aware-anti-join-without-equijoin-keys"
     if literal_aggregate(plan_text or ""):
         return "count-distinct-of-projected-literal-answered-from-statistics"
+    if offset_limit_key(plan_text):
+        return offset_limit_key(plan_text)
+    if extracted_below_outer_join(plan_text or ""):
+        return "push_down_leaf_projections-below-null-supplying-join-side"
+    if err and "unions_to_filter' failed" in err and "No field named" in err:
+        return "unions_to_filter-filter-above-aliasing-projection"
+    if err and "push_down_leaf_projections' failed" in err and "duplicate qualified field name" in err:
+        return "push_down_leaf_projections-duplicate-qualified-field-name"
     if err and "Physical input schema should be the same as the one converted from logical input schema" in err \
             and "(physical) true vs (logical) false" in err:
         return "is-true-family-nullability-mismatch"
     return None
+
+
+SHAPE_FEATURES = {"window", "lateral", "quant", "aggsets", "distincton", "pack", "ufilter", "agg", "distinct", "scalarsub", "insub", "exists", "sort", "limit", "case", "coalesce"}
 
 
 class Judge:
@@ -175,6 +217,8 @@ class Judge:
         self.samples = []
         self.raised = 0
         self.notes = []
+        self.rule_by_shape = collections.defaultdict(collections.Counter)
+        self.limit_over = collections.Counter()
 
     def raise_(self, case, res, kind, what, d, before, after, oracle, views):
         self.st["violations_" + kind] += 1
@@ -186,6 +230,7 @@ class Judge:
         bad = res["plans"][after]["text"] if after is not None else ""
         e_after = res["exec"][after][d] if after is not None and d is not None else None
         key = finding_key(bad, (e_after or {}).get("err")) or (finding_key(res["plans"][before]["text"]) if before is not None else None)
+        key = key or semcases.known_key(oracle)
         self.raised += 1 if key is None else 0
         full = next((v for v in res["variants"] if v["name"] == "full"), {})
         rp = {"kind": kind, "what": what, "oracle": oracle, "db_index": d,
@@ -209,6 +254,13 @@ class Judge:
             self.st[f"{kind}:{sb}->{sa}"] += 1
             if sb not in ("ok", "diff"):
                 continue
+            if sa == "evalerr" and "common_sub_expression_eliminate" in what:
+                # CSE only re-arranges expressions inside one node: it evaluates them on the same rows.  The reference is lazy
+                # exactly in CASE / COALESCE, so an evaluation error that appears with this rule means a guarded
+                # subexpression is now evaluated unconditionally (short-circuit context not respected).
+                self.raise_(case, res, kind, what, d, b, a, f"{what}: the plan AFTER raises an evaluation error ({ma[:200]}) on rows for which the "
+                            "plan BEFORE and the reference evaluate without error (guarded subexpression evaluated unconditionally)", views)
+                return compared
             if sa in ("ok", "diff"):
                 compared = True
             if sb == "ok" and sa == "diff":
@@ -251,10 +303,17 @@ class Judge:
             if p.get("phys") and p["phys"]["names"] != p["names"]:
                 self.st["physical_names_differ"] += 1
         # (a) changed steps of the default pipeline
+        shape = sorted(f for f in sqlcases.features_of(case["plan"]) if f in SHAPE_FEATURES or f.startswith("join:") or f.startswith("setop:")) or ["plain"]
         for c in res["chain"]:
             if not c["changed"]:
                 continue
             self.rule_changed[c["rule"]] += 1
+            for f in shape:
+                self.rule_by_shape[c["rule"]][f] += 1
+            if c["rule"] == "push_down_limit" and case["plan"]["op"] == "limit":
+                below = case["plan"]["src"]
+                below = below["src"] if below["op"] == "sort" else below
+                self.limit_over[("sort+" if case["plan"]["src"]["op"] == "sort" else "") + below["op"] + (":" + below["jt"] if below["op"] == "join" else "")] += 1
             if self.pair(case, res, views, c["before"], c["after"], "step", f"rule {c['rule']} (pass {c['pass']})"):
                 self.rule_compared[c["rule"]] += 1
                 if any(not v["expect"]["err"] and v["expect"]["rows"] for v in views):
@@ -269,6 +328,11 @@ class Judge:
         for v in res["variants"]:
             if "err" in v:
                 self.st["optimizer_error"] += 1
+                # a verdict for the default pipeline always; for rule-alone / rule-removed lists only if the unoptimized plan is
+                # executable (a list without a lowering rule - DISTINCT ON, subqueries - produces plans nothing can execute)
+                if v["name"] != "full" and s0 not in ("ok", "diff", "referr", "evalerr"):
+                    self.st["optimizer_error_unexecutable_input"] += 1
+                    continue
                 if not all(vw["expect"]["err"] for vw in views):
                     key = finding_key("", v["err"])
                     self.st["violations_optimizer"] += 1
@@ -380,6 +444,26 @@ def run(ctx):
             feats[f] += 1
     if len(J.nontrivial) < 2 or sum(J.rule_compared.values()) == 0:
         raise ToolError("C03: no rule step was compared (vacuous run)")
+    # vacuity guards: every rule of the default pipeline must have changed a plan, every generated node kind must occur,
+    # and the rules whose input is executable must have been compared before/after
+    if never:
+        raise ToolError(f"C03: optimizer rules that never changed a plan in this run: {never}")
+    need_ops = ["window", "lateral", "quant", "aggsets", "distincton", "pack", "ufilter", "join:full", "join:anti", "setop:intersect:all", "scalarsub", "insub", "exists"]
+    missing_ops = [o for o in need_ops if feats[o] == 0]
+    if missing_ops:
+        raise ToolError(f"C03: node kinds never generated in this run: {missing_ops}")
+    need_compared = ["push_down_filter", "push_down_limit", "eliminate_outer_join", "eliminate_cross_join", "optimize_projections", "simplify_expressions",
+                     "common_sub_expression_eliminate", "extract_equijoin_predicate", "propagate_empty_relation", "eliminate_filter",
+                     "single_distinct_aggregation_to_group_by", "eliminate_group_by_constant", "eliminate_duplicated_expr", "filter_null_join_keys"]
+    lim_missing = [o for o in ("filter", "project", "agg", "window", "sort+agg") if not any(k == o or k.startswith(o + ":") for k in J.limit_over)] + \
+                  [o for o in ("join", "sort+join") if not any(k.startswith(o) for k in J.limit_over)]
+    if lim_missing and not any(k in ("setop", "ufilter") for k in J.limit_over):
+        lim_missing.append("setop/ufilter")
+    if lim_missing:
+        raise ToolError(f"C03: push_down_limit never acted with the root LIMIT directly over: {lim_missing} (have {dict(J.limit_over)})")
+    not_compared = [r for r in need_compared if J.rule_compared[r] == 0]
+    if not_compared:
+        raise ToolError(f"C03: rules whose steps were never compared before/after: {not_compared}")
     write_evidence(ctx, "exploration", {
         "evaluations": summary["executions"], "distinct_nontrivial": len(J.nontrivial),
         "rule": "evaluation = one engine execution of one logical plan (unoptimized / after a rule step / rule alone / rule removed / full) on one "
@@ -387,7 +471,8 @@ def run(ctx):
                 "by the engine and compared (with each other and with the TLA+ reference) on >=1 database with a non-empty, non-error reference result",
         "samples": J.samples[:3], "cases": len(cases), "databases_per_case": [1 + g[2] for g in gens],
         "rule_steps_changed": dict(J.rule_changed), "rule_steps_compared_before_after": dict(J.rule_compared),
-        "rules_never_fired": never, "variants_compared": dict(J.variant_compared), "status_counts": dict(sorted(J.st.items())),
+        "rules_never_fired": never, "push_down_limit_root_limit_over": dict(J.limit_over),
+        "rule_steps_by_plan_shape": {r: dict(v) for r, v in J.rule_by_shape.items()}, "variants_compared": dict(J.variant_compared), "status_counts": dict(sorted(J.st.items())),
         "operator_coverage": dict(sorted(feats.items())),
         "spec_rewrites": spec, "generator_states": gen_states, "selftest": st_res,
     }, assumptions=[
